@@ -16,6 +16,11 @@ func (c *Conversation) UseExtraSymmetricKey(usage uint32, usageData []byte) ([]b
 		return nil, nil, newOtrError("cannot send message in current state")
 	}
 
+	if len(usageData) > 0xFFFF-4 {
+		// the TLV length field has 16 bits: longer usage data would go out with a wrapped length
+		return nil, nil, newOtrError("usage data is too long")
+	}
+
 	t := tlv{
 		tlvType:   tlvTypeExtraSymmetricKey,
 		tlvLength: 4 + uint16(len(usageData)),
